@@ -83,6 +83,17 @@ class Prop:
         oracle = {}
         if self.use_oracle:
             oracle = {prof: jobs[("oracle", prof)].result() for prof in ("release", "relchk")}
+        # an answer HANG / CRASH of the *model driver* is our own infrastructure (a time limit hit on a loaded machine,
+        # everything after it in the chunk shifted): such ops are asked again, one at a time, without haste
+        if model is not None:
+            for prof in ("release", "relchk"):
+                lst = model[prof]
+                bad = [k for k, a in enumerate(lst) if a in ("HANG", "CRASH")]
+                for k in bad[:50]:
+                    cmd = [ctx.driver] + (["--checked"] if (prof == "relchk" and self.profile_sensitive) else [])
+                    again = ctx.run_all(cmd, [ops[k]], 600.0)
+                    if again and again[0] not in ("HANG", "CRASH"):
+                        lst[k] = again[0]
         classes = {}
         nontrivial = set()
         dis = 0
